@@ -88,7 +88,7 @@ def run(R, tier):
                 return i, False
         return None, False
 
-    lists = D.child_lists(2)
+    lists = D.child_lists(3 if tier == "thorough" else 2)   # 73 lists quick, 585 thorough
     n_rows = 0
     for ctx, stream, descend in (("ProgramHeaderSeparator", ["ProgramHeaderSeparator"], False), ("ProgramMessageUnitSeparator", ["ProgramMessageUnitSeparator"], False), ("HeaderQuerySuffix", ["HeaderQuerySuffix"], False), (M.END, [M.END], False),
                                  ("ProgramMnemonic", ["ProgramMnemonic"], True), ("HeaderMnemonicSeparator,ProgramMnemonic", ["HeaderMnemonicSeparator", "ProgramMnemonic"], True)):
@@ -248,7 +248,7 @@ def run(R, tier):
     from . import lexer as LX
     LX.check_unit_separator_typestate(R, "R02.9")
     # header mnemonics of every legal length (up to 12 characters, `*` included) reach the tree as one element
-    LX.check_elements(R, "R02.9", ("mnemonic",))
+    LX.check_elements(R, "R02.9", ("mnemonic",), tier == "thorough")
     R.trust("IEEE 488.2 7.6 / SCPI-99 6.2.4 compound header rules as encoded in the expected tables of sa/rules/c02.py")
 
 
